@@ -382,6 +382,14 @@ def run(ctx, widen=False):
             else:
                 check_log(ctx, "illformed-depth", c, o, c.split("\t")[2])
 
+    # >>> a_wr (wave 4): state queries from the document, floats over the whole readable domain + precision variants,
+    # typed read-back (bool / dates / iso dates / unknown tokens), escape buffer histories, arbitrary sessions
+    # (calls + write_tape + inner()); see props/C15_extra.py and audit/C15.md
+    if not widen:
+        from props import C15_extra
+        C15_extra.run(ctx, _fail)
+    # <<< a_wr
+
 
 def search(ctx):
     ctx.rng = random.Random(ctx.seed + 1)
